@@ -3,9 +3,9 @@
 use anyhow::{Context, Result};
 use clap::{Subcommand, ValueEnum};
 use std::fs;
-use std::path::Path;
+use std::path::{Component, Path, PathBuf};
 use wow_mpq::{
-    Archive, ArchiveBuilder, FormatVersion, PatchChain, RebuildOptions,
+    Archive, ArchiveBuilder, FormatVersion, PatchChain, RebuildOptions, SecurityLimits,
     compare_archives as mpq_compare_archives,
     debug::{
         HexDumpConfig, dump_block_entry, dump_hash_entry, format_bet_table, format_block_table,
@@ -706,6 +706,44 @@ fn extract_files(
     extract_files_with_options(options)
 }
 
+/// Map an archive entry name to the path it is written to beneath `output_dir`.
+///
+/// Entry names come from the archive's listfile / hash table, from a patch archive or from the
+/// command line and are untrusted. The name is converted to the system form first (on Unix
+/// `..\x` only becomes a traversal after the separators are converted) and then refused if it
+/// is absolute, starts with a drive prefix, contains a parent-directory component or fails
+/// `wow_mpq::security::validate_file_path`, so that extraction never creates or modifies
+/// anything outside the output directory.
+fn extraction_target(output_dir: &str, mpq_name: &str, preserve_paths: bool) -> Result<PathBuf> {
+    let system_path = mpq_path_to_system(mpq_name);
+
+    wow_mpq::security::validate_file_path(&system_path, &SecurityLimits::default())
+        .map_err(|e| anyhow::anyhow!("unsafe file name in archive: {e}"))?;
+
+    // `C:` is an ordinary component on Unix and passes the validator there
+    let bytes = system_path.as_bytes();
+    if bytes.len() >= 2 && bytes[0].is_ascii_alphabetic() && bytes[1] == b':' {
+        anyhow::bail!("unsafe file name in archive: drive prefix not allowed");
+    }
+
+    let relative = Path::new(&system_path);
+    if !relative
+        .components()
+        .all(|c| matches!(c, Component::Normal(_) | Component::CurDir))
+    {
+        anyhow::bail!("unsafe file name in archive: path leaves the output directory");
+    }
+
+    if preserve_paths {
+        Ok(Path::new(output_dir).join(relative))
+    } else {
+        let filename = relative
+            .file_name()
+            .ok_or_else(|| anyhow::anyhow!("file name is empty"))?;
+        Ok(Path::new(output_dir).join(filename))
+    }
+}
+
 fn extract_files_with_options(options: ExtractOptions) -> Result<()> {
     let ExtractOptions {
         archive_path,
@@ -822,13 +860,14 @@ fn extract_files_with_options(options: ExtractOptions) -> Result<()> {
 
             match data_result {
                 Ok(data) => {
-                    let output_path = if preserve_paths {
-                        let system_path = mpq_path_to_system(&file);
-                        Path::new(&output_dir).join(system_path)
-                    } else {
-                        let system_path = mpq_path_to_system(&file);
-                        let filename = Path::new(&system_path).file_name().unwrap_or_default();
-                        Path::new(&output_dir).join(filename)
+                    let output_path = match extraction_target(&output_dir, &file, preserve_paths) {
+                        Ok(path) => path,
+                        Err(e) => {
+                            log::warn!("Failed to extract {file}: {e}");
+                            error_count += 1;
+                            pb.inc(1);
+                            continue;
+                        }
                     };
 
                     if let Some(parent) = output_path.parent() {
@@ -900,15 +939,14 @@ fn extract_files_with_options(options: ExtractOptions) -> Result<()> {
 
             match chain.read_file(file) {
                 Ok(data) => {
-                    let output_path = if preserve_paths {
-                        // Convert MPQ path separators to system path separators
-                        let system_path = mpq_path_to_system(file);
-                        Path::new(&output_dir).join(system_path)
-                    } else {
-                        // Convert MPQ path to system path, then extract just the filename
-                        let system_path = mpq_path_to_system(file);
-                        let filename = Path::new(&system_path).file_name().unwrap_or_default();
-                        Path::new(&output_dir).join(filename)
+                    let output_path = match extraction_target(&output_dir, file, preserve_paths) {
+                        Ok(path) => path,
+                        Err(e) => {
+                            log::warn!("Failed to extract {file}: {e}");
+                            error_count += 1;
+                            pb.inc(1);
+                            continue;
+                        }
                     };
 
                     if let Some(parent) = output_path.parent() {
